@@ -31,7 +31,7 @@ FORMAT_TYPES = ['NOT', 'AND', 'OR', 'NOR', 'NAND', 'XOR', 'NXOR', 'IFF', 'GEQ', 
 REQUIRED = {'mon:encode_circuit.roundtrip_ok': 200, 'mon:encode_circuit.codec_error': 20, 'domain:in': 150,
             'domain:in/shuffled_storage': 30, 'domain:in/const2': 10, 'domain:out': 50, 'bitio_programs': 100,
             'dict_roundtrips': 100, 'dict_unicode': 20, 'dict_odd_edge_codepoint': 20, 'dict_prefixes_rejected': 500, 'dict_extensions_rejected': 50,
-            'db_roundtrip:BytesIO': 5, 'db_roundtrip:bin': 3, 'db_roundtrip:xz': 3, 'large_circuits': 2}
+            'db_roundtrip:BytesIO': 5, 'db_roundtrip:bin': 3, 'db_roundtrip:xz': 3, 'large_circuits': 2, 'reencoded_after_edit': 50}
 
 CUR = {'ctx': None, 'case': None}
 
@@ -212,10 +212,40 @@ def check_circuit(case, ctx):
             ctx.count('domain:in/shuffled_storage')
         if any(t in ('ALWAYS_TRUE', 'ALWAYS_FALSE') for t, _ in net.gates.values()):
             ctx.count('domain:in/const2')
+    enc = None
     try:
-        encode_circuit(c)
+        enc = encode_circuit(c)
     except Exception:
         pass
+    if enc is not None and dom and not case.get('large') and rng.random() < 0.5:
+        # what came out of the codec is used, edited through the public API (inputs / outputs re-ordered, a gate added
+        # or renamed) and stored again: the monitor on encode_circuit judges this second round trip like any other
+        try:
+            from cirbo.circuits_db.circuits_encoding import decode_circuit
+            with monitor.suspended():
+                d = decode_circuit(enc)
+                ins = list(d.inputs)
+                rng.shuffle(ins)
+                d.set_inputs(ins)
+                outs = list(d.outputs)
+                rng.shuffle(outs)
+                d.set_outputs(outs)
+                r_ = rng.random()
+                labels = list(d.gates)
+                if r_ < 0.3 and labels and not d.has_gate('extra_gate'):
+                    from cirbo.core.circuit import gate as G
+                    d.emplace_gate('extra_gate', G.AND, (rng.choice(labels), rng.choice(labels)))
+                    d.set_outputs(list(d.outputs) + ['extra_gate'])
+                elif r_ < 0.5 and labels:
+                    l = rng.choice(labels)
+                    if not d.has_gate('renamed_' + l):
+                        d.rename_gate(l, 'renamed_' + l)
+            CUR['case'] = dict(case, reencoded_after_edit=True)
+            encode_circuit(d)
+            ctx.count('reencoded_after_edit')
+        except Exception as e:
+            ctx.count('reencode_refused:' + type(e).__name__)
+        CUR['case'] = case
     n_g = sum(1 for t, _ in net.gates.values() if t != 'INPUT')
     ctx.case(refsem.structural_hash(net) + ('s' if case.get('shuffle') else ''), n_g >= 2 or len(net.gates) >= 3,
              cls='circuit:' + ('in_domain' if dom else 'out_of_domain'),
